@@ -13,7 +13,13 @@ def main():
     for m in re.finditer(r"^seeded-(C\d\d-[A-Z]) check=(C\d\d): (DETECTED|MISSED)[^\n]*?(?:VIOLATION property=\S+ replay=\S+(?: no-failing-input-found)? :: ([^\n]*))?$", log, flags=re.M):
         sid, chk, verdict, what = m.group(1), m.group(2), m.group(3), (m.group(4) or "")
         nfi = "no-failing-input-found" in m.group(0)
-        rows[sid] = (chk, verdict + (" (nfi)" if nfi else ""), what)
+        v = verdict + (" (nfi)" if nfi else "")
+        if sid in rows and rows[sid][0] != chk:
+            # a second check was run on the same seed (seedtest --also): both verdicts are shown
+            pc, pv, pw = rows[sid]
+            rows[sid] = (f"{pc}, {chk}", f"{pc}: {pv} · {chk}: {v}", what or pw)
+        else:
+            rows[sid] = (chk, v, what)
     out = ["| seed | change (one line) | caught by | verdict | what the check reported |", "|---|---|---|---|---|"]
     for d in sorted((V / "seeded").iterdir()):
         if not (d / "meta.json").exists():
@@ -27,7 +33,7 @@ def main():
     start = design.index("| seed | change (one line) |")
     end = design.index("\n\n", start)
     (V / "DESIGN.md").write_text(design[:start] + "\n".join(out) + design[end:])
-    print(len(out) - 2, "rows;", sum(1 for r in rows.values() if r[1].startswith("DETECTED")), "detected of", len(rows), "run")
+    print(len(out) - 2, "rows;", sum(1 for r in rows.values() if "DETECTED" in r[1]), "detected of", len(rows), "run")
 
 
 if __name__ == "__main__":
